@@ -59,6 +59,10 @@ namespace
       const MeshType& mesh = *node->get_mesh();
       r.ents = wc::entity_keys(mesh, SH->dict);
       r.neighbors = layer.get_neighbor_ranks();
+      {
+        std::set<int> once(r.neighbors.begin(), r.neighbors.end());
+        if(once.size() != r.neighbors.size()) sim::fail("NEIGHBOUR_DUPLICATE", "the neighbour list of layer rank " + std::to_string(layer.comm().rank()) + " names a rank more than once");
+      }
       for(const auto& kv : node->get_halo_map())
       {
         auto trg = wc::part_targets<MeshType>(*kv.second);
@@ -472,6 +476,12 @@ namespace
       // neighbours and halos
       for(Index r = 0; r < np; ++r)
       {
+        {
+          // the neighbour list describes a relation: a rank listed twice would exchange (and add) its halo twice
+          std::set<int> once(neigh[r].begin(), neigh[r].end());
+          if(once.size() != neigh[r].size()) sim::fail("NEIGHBOUR_DUPLICATE", where + ": the neighbour list of patch " + std::to_string(r) + " names a rank more than once");
+          if(once.count(int(r))) sim::fail("NEIGHBOUR_DUPLICATE", where + ": patch " + std::to_string(r) + " lists itself as a neighbour");
+        }
         std::set<Key> vr(pk[r][0].begin(), pk[r][0].end());
         for(Index q = 0; q < np; ++q)
         {
